@@ -249,7 +249,10 @@ def check_stack_mode(p, stack, builder, groups, seq, return_ctx, n, forms, histo
         except Exception as e:
             p.violation(sig(f"exception:{type(e).__name__}", stack, seq, return_ctx, form), dict(case, idx=idx), repr(e))
             return None
-        kind = check_result(res, seq, i, groups, return_ctx, records_ctx=not stack.startswith('torch'))
+        try:
+            kind = check_result(res, seq, i, groups, return_ctx, records_ctx=not stack.startswith('torch'))
+        except Exception as e:
+            kind = f"result_malformed:{type(e).__name__}"
         if kind is not None:
             p.violation(sig(kind, stack, seq, return_ctx, form), dict(case, idx=idx),
                         f"{stack} mode='{mode}' return_ctx={return_ctx} n={n} idx={idx}: {kind}; got {res!r}")
